@@ -57,6 +57,45 @@ theorem C14_encode_flush (ops : List EncOp) :
   rw [finish_spec e hs, hp []]
   simp [pendingText, carry, Enc.new]
 
+/-- Encoding into an arbitrary `io::Write`: the inner writer may accept only part of each buffer (any schedule of
+    per-call maxima and `Interrupted` failures, then at most `tail` bytes per call for ever) and may become full
+    (`room`). For every sequence of `write` / `flush` calls: if `finish` succeeds, exactly the RFC 4648 text of
+    the bytes written has ARRIVED in the inner writer; if an I/O error is reported (only possible when the
+    writer is full), what has arrived is a proper prefix of that text — symbols are never lost silently,
+    reordered or invented; and nothing panics. -/
+theorem C14_encode_sink (sched : List Nat) (tail : Nat) (room : Option Nat) (ops : List EncOp) :
+    match encodeOpsS ⟨[], sched, tail, room⟩ ops with
+    | .ok s => s.arrived = rfcEncode (written ops)
+    | .ioerr s => room ≠ none ∧ ∃ q, q ≠ [] ∧ s.arrived ++ q = rfcEncode (written ops)
+    | .panic => False := by
+  have h := encodeOpsS_spec ⟨[], sched, tail, room⟩ ops rfl
+  revert h
+  generalize encodeOpsS ⟨[], sched, tail, room⟩ ops = r
+  intro h
+  cases r with
+  | ok s => exact h.1
+  | ioerr s => exact h
+  | panic => exact h
+
+/-- an inner writer that is never full: `finish` always succeeds and the whole text has arrived, however short
+    its writes -/
+theorem C14_encode_sink_unbounded (sched : List Nat) (tail : Nat) (ops : List EncOp) :
+    ∃ s, encodeOpsS ⟨[], sched, tail, none⟩ ops = .ok s ∧ s.arrived = rfcEncode (written ops) := by
+  have h := C14_encode_sink sched tail none ops
+  revert h
+  generalize encodeOpsS ⟨[], sched, tail, none⟩ ops = r
+  intro h
+  cases r with
+  | ok s => exact ⟨s, rfl, h⟩
+  | ioerr s => exact absurd rfl h.1
+  | panic => exact absurd h id
+
+/-- "foobar" written as "fo", flush, "obar" into a writer that takes one byte per call after an interrupted call -/
+example : ∃ s, encodeOpsS ⟨[], [0, 2, 0], 1, none⟩ [.write [102, 111], .flush, .write [111, 98, 97, 114]] = .ok s ∧
+    s.arrived = rfcEncode [102, 111, 111, 98, 97, 114] := by
+  simpa [written] using
+    C14_encode_sink_unbounded [0, 2, 0] 1 [.write [102, 111], .flush, .write [111, 98, 97, 114]]
+
 /-- Decoding, refinement form: for every plain byte string `d`, every schedule of the underlying reader (any
     finite sequence of per-call maxima and `Interrupted` failures, then at most `tail` bytes per call for ever —
     e.g. one byte at a time) and every sequence of destination buffer sizes, reading the RFC 4648 text of `d`
